@@ -429,7 +429,12 @@ theorem evalOK_all (cfg : Cfg) : ∀ f, EvalOK cfg f := by
       have := ih' F' (by omega) x e' xa.off d (by omega) hx hl hro
       rw [← hxa, at_eta] at this
       simpa [denote] using this
-    | @chain id ks x₀ o x₁ rest e₀ _ hop hx0 hfold =>
+    | @chain id ks x₀ rest0 e₀ _ hop hne hx0 hfold0 =>
+      obtain ⟨o, x₁, rest, rfl, hfold⟩ : ∃ o x₁ rest, rest0 = o :: x₁ :: rest ∧
+          FoldR Represents e₀ (o :: x₁ :: rest) e := by
+        cases hfold0 with
+        | nil => exact absurd rfl hne
+        | cons h1 h2 h3 => exact ⟨_, _, _, rfl, .cons h1 h2 h3⟩
       have hL := at_opKids ⟨off, .node id .OPERATION ks⟩
       simp only [kids_node, hop] at hL
       obtain ⟨x0a, L1, hLeq, hx0a, hL1⟩ := map_eq_cons hL
